@@ -143,8 +143,13 @@ class _TAlignModelCase(TSpec):
         else:
             wedge = _X.Obj(interp.resolve("acryo.tilt._base:NoWedge"), {})
         cutoff = Sym(z3.Real(f"{name}_cutoff"))
+        if self.multi:
+            quats = fresh_array(name + "_quaternions", 2, "real", shape=(nr, 4))
+        else:
+            from pyvc import arrays as _A
+            quats = _A.from_nested([[0, 0, 0, 1]])             # no rotation search: the identity
         return _X.Obj(cls, {"_n_templates": nt, "_n_rotations": nr, "_template": tmpl, "_mask": mask, "_ndim": 3,
-                            "_template_mask_cache": cache, "_tilt_model": wedge, "_cutoff": cutoff})
+                            "_template_mask_cache": cache, "_tilt_model": wedge, "_cutoff": cutoff, "quaternions": quats})
 
     def src(self, name, model):
         s = tuple(max(int(model.get(f"{name}_box_{a}", 9)), 1) for a in range(3))
@@ -272,11 +277,11 @@ class TModelFactory(TSpec):
     """`alignment_model`: a callable (template, mask) -> constructed model of one concrete class whose box is the
     template's shape"""
 
-    def __init__(self, kinds=_MODELS):
-        self.kinds = kinds
+    def __init__(self, kinds=_MODELS, multi_cases=(False, True)):
+        self.kinds, self.multi_cases = kinds, multi_cases
 
     def cases(self):
-        return [_TModelFactoryCase(k, m) for k in self.kinds for m in (False, True)]
+        return [_TModelFactoryCase(k, m) for k in self.kinds for m in self.multi_cases]
 
 
 class _TModelFactoryCase(TSpec):
